@@ -1057,4 +1057,185 @@ theorem undoFold_LiveSum (e : Env) (ev : List Nat) (s : St) (L : List Nat) (h : 
     rw [hfil] at this
     exact this
 
+theorem LiveSum.congr {e : Env} {s s' : St} {L : List Nat} (h : LiveSum e s L) (hU : s'.U = s.U)
+    (hT : s'.total = s.total) : LiveSum e s' L :=
+  ⟨by rw [hU]; exact h.nodupU, by rw [hU]; exact h.live, by rw [hU, hT]; exact h.conservation⟩
+
+/-- **the transactions of a block keep the live invariant and conservation**: confirmed live transactions leave `L` and
+their fees move to the proposer; new transactions have distinct fresh ids nobody cites, do not cite themselves, a coinbase
+has no inputs and no fee; the block contains the live transactions its transactions cite -/
+theorem blockRun_LiveSum (e : Env) (lh : Int) (prop : String) (isPool : Nat → Bool) (txs : List Nat) (s s2 : St)
+    (L : List Nat) (h : blockRun e lh prop isPool txs s s2) (hinv : LiveSum e s L)
+    (hnd : txs.Nodup) (hid : ∀ i ∈ txs, (e.tx i).id = i)
+    (hpool : ∀ i ∈ txs, (isPool i = true ↔ i ∈ L))
+    (hnew : ∀ i ∈ txs, isPool i = false → (∀ o, lookup s.U (i, o) = none) ∧ (∀ r ∈ (e.tx i).ins, r.tx ≠ i) ∧
+      ((e.tx i).coinbase = true → (e.tx i).ins = [] ∧ feeOf (e.tx i).outs = 0) ∧
+      (∀ j ∈ L, ∀ r ∈ (e.tx j).ins, r.tx ≠ i))
+    (hparents : ∀ i ∈ txs, ∀ r ∈ (e.tx i).ins, r.tx ∈ L → r.tx ∈ txs) :
+    LiveSum e s2 (L.filter (fun x => !txs.contains x)) := by
+  have hl := hinv.live
+  obtain ⟨r1, r2⟩ := blockRun_sum e lh prop isPool txs s s2 h hnd hid hinv.nodupU
+    (fun i hi hp => ⟨(hnew i hi hp).1, (hnew i hi hp).2.1, (hnew i hi hp).2.2.1⟩)
+    (fun i hi hp idx hf => hl.feeFree i ((hpool i hi).mp hp) idx hf)
+  refine ⟨r1, blockRun_Live e lh prop isPool txs s s2 L h hl hid hpool
+    (fun i hi hp => (hnew i hi hp).2.2.2) hparents, ?_⟩
+  have hsplit := poolFees_split e L (fun i => txs.contains i)
+  have hsame : poolFees e (txs.filter isPool) = poolFees e (L.filter (fun i => txs.contains i)) := by
+    apply poolFees_same_mem
+    · exact List.Nodup.sublist List.filter_sublist hnd
+    · exact List.Nodup.sublist List.filter_sublist hl.nodupL
+    · intro x
+      simp only [List.mem_filter, List.contains_eq_mem, decide_eq_true_eq]
+      constructor
+      · intro ⟨hx, hp⟩; exact ⟨(hpool x hx).mp hp, hx⟩
+      · intro ⟨hx, hb⟩; exact ⟨hb, (hpool x hb).mpr hx⟩
+  have hcons := hinv.conservation
+  rw [hsame] at r2
+  omega
+
+/-- **`playForMiner` keeps the strong pool invariant.** Hypotheses: block ids pairwise distinct and `e.tx i` has id `i`;
+the non-coinbase transactions of the block are pending; the award is a coinbase without inputs and fee whose id is fresh
+(no row, not cited by a pending transaction); the block contains the pending transactions its transactions cite. -/
+theorem playForMiner_PoolLive (e : Env) (s : St) (lh : Int) (b : Block) (hinv : PoolLive e s)
+    (hnd : b.txs.Nodup) (hid : ∀ i ∈ b.txs, (e.tx i).id = i)
+    (hsub : ∀ i ∈ b.txs, (e.tx i).coinbase = false → i ∈ s.pool)
+    (haward : ∀ i ∈ b.txs, (e.tx i).coinbase = true →
+      (e.tx i).ins = [] ∧ feeOf (e.tx i).outs = 0 ∧ (∀ o, lookup s.U (i, o) = none) ∧
+      (∀ j ∈ s.pool, ∀ r ∈ (e.tx j).ins, r.tx ≠ i))
+    (hparents : ∀ i ∈ b.txs, ∀ r ∈ (e.tx i).ins, r.tx ∈ s.pool → r.tx ∈ b.txs) :
+    PoolLive e (playForMiner e s lh b).1 := by
+  unfold playForMiner
+  by_cases h1 : b.pre ≠ some s.pointer
+  · rw [if_pos h1]; exact hinv
+  · rw [if_neg h1]
+    cases hgo : playForMiner.go e lh b b.txs s with
+    | none => exact hinv
+    | some s2 =>
+      simp only
+      have hrun := playForMiner_go_run e lh b b.txs s s2 hgo
+      have := blockRun_LiveSum e lh b.prop _ b.txs s s2 s.pool hrun hinv hnd hid
+        (fun i hi => by
+          constructor
+          · intro hp; exact hsub i hi (by simpa using hp)
+          · intro hp; simp [hinv.live.nonCoinbase i hp])
+        (fun i hi hp => by
+          have hc : (e.tx i).coinbase = true := by simpa using hp
+          obtain ⟨a1, a2, a3, a4⟩ := haward i hi hc
+          exact ⟨a3, by rw [a1]; simp, fun _ => ⟨a1, a2⟩, a4⟩)
+        hparents
+      exact LiveSum.congr this rfl rfl
+
+/-- **rolling the pool back** (step 1 of `walk`: every pending transaction undone, newest first): the table is back to
+the confirmed state — conservation `Σ U = total`, one row per key, and no row carries the id of a rolled-back transaction -/
+theorem rollback_LiveSum (e : Env) (s : St) (hinv : PoolLive e s) :
+    let s0 := s.pool.reverse.foldl (fun st i => undoTx e st (e.tx i)) s
+    UNodup s0.U ∧ sumU s0.U = s0.total ∧ s0.total = s.total ∧ (∀ i ∈ s.pool, ∀ o, lookup s0.U (i, o) = none) := by
+  intro s0
+  have hl := hinv.live
+  have hnd : s.pool.reverse.Nodup := by
+    unfold List.Nodup
+    rw [List.pairwise_reverse]
+    exact List.Pairwise.imp (fun h => fun e2 => h e2.symm) hl.nodupL
+  have hord : s.pool.reverse.Pairwise (fun a b => ∀ r ∈ (e.tx b).ins, r.tx ≠ a) := by
+    rw [List.pairwise_reverse]; exact hl.order
+  have hfold := undoFold_LiveSum e s.pool.reverse s s.pool hinv hnd (fun t ht => List.mem_reverse.mp ht) hord
+    (fun t _ j hj _ => List.mem_reverse.mpr hj)
+  have hnil : s.pool.filter (fun x => !s.pool.reverse.contains x) = [] := by
+    apply List.filter_eq_nil_iff.mpr; intro a ha; simp [ha]
+  rw [hnil] at hfold
+  have hcons := hfold.conservation
+  simp only [poolFees, List.map_nil, List.sum_nil] at hcons
+  have hs0 : s0 = s.pool.reverse.foldl (fun st i => undoTx e st (e.tx i)) s := rfl
+  refine ⟨hfold.nodupU, by rw [hs0]; omega, ?_, ?_⟩
+  · -- the total never moves: no pending coinbase
+    show s0.total = s.total
+    have : ∀ (l : List Nat) (st : St), (∀ i ∈ l, (e.tx i).coinbase = false) →
+        (l.foldl (fun st i => undoTx e st (e.tx i)) st).total = st.total := by
+      intro l
+      induction l with
+      | nil => intro st _; rfl
+      | cons t rest ih =>
+        intro st hc
+        simp only [List.foldl_cons]
+        rw [ih _ (fun i hi => hc i (List.mem_cons_of_mem _ hi))]
+        unfold undoTx
+        have hcb := hc t List.mem_cons_self
+        have : ∀ (outs : List Out) (off : Nat) (x : St), (undoOuts (e.tx t) outs off x).total = x.total := by
+          intro outs
+          induction outs with
+          | nil => intro off x; rfl
+          | cons o r ih2 =>
+            intro off x
+            unfold undoOuts
+            rw [ih2]
+            split
+            · rfl
+            · simp [hcb]
+        rw [this]
+        exact (undoKOut_frame e (e.tx t) (e.tx t).kout st).2.1
+    exact this _ _ (fun i hi => hl.nonCoinbase i (List.mem_reverse.mp hi))
+  · -- rows of rolled-back transactions are gone
+    have hgone : ∀ (ev : List Nat) (st : St) (L : List Nat), LiveSum e st L → ev.Nodup → (∀ t ∈ ev, t ∈ L) →
+        ev.Pairwise (fun a b => ∀ r ∈ (e.tx b).ins, r.tx ≠ a) →
+        (∀ t ∈ ev, ∀ j ∈ L, (∃ r ∈ (e.tx j).ins, r.tx = t) → j ∈ ev) →
+        ∀ t ∈ ev, ∀ o, lookup (ev.foldl (fun st i => undoTx e st (e.tx i)) st).U (t, o) = none := by
+      intro ev
+      induction ev with
+      | nil => intro _ _ _ _ _ _ _ t ht; cases ht
+      | cons a rest ih =>
+        intro st L hls hnd' hsub' hord' hcl' t ht o
+        simp only [List.nodup_cons] at hnd'
+        simp only [List.pairwise_cons] at hord'
+        have haL := hsub' a List.mem_cons_self
+        have hnc : ∀ j ∈ L, ∀ r ∈ (e.tx j).ins, r.tx ≠ a := by
+          intro j hj r hr hrt
+          rcases List.mem_cons.mp (hcl' a List.mem_cons_self j hj ⟨r, hr, hrt⟩) with hjt | hjr
+          · exact hls.live.noSelf j hj r hr (hrt.trans hjt.symm)
+          · exact hord'.1 j hjr r hr hrt
+        simp only [List.foldl_cons]
+        rcases List.mem_cons.mp ht with hta | htr
+        · rw [hta]
+          apply undoFold_lookup_none
+          · intro t' ht' r hr he
+            injection he with e1 _
+            exact hord'.1 t' ht' r hr e1
+          · exact undo_Live_gone e st L a hls.live haL o
+        · have hmem : ∀ x, x ∈ L.filter (fun x => x != a) ↔ x ∈ L ∧ x ≠ a := by
+            intro x; simp only [List.mem_filter, bne_iff_ne, ne_eq]
+          exact ih (undoTx e st (e.tx a)) (L.filter (fun x => x != a)) (undo_LiveSum e st L a hls haL hnc) hnd'.2
+            (fun t' ht' => (hmem t').mpr ⟨hsub' t' (List.mem_cons_of_mem _ ht'), fun e2 => hnd'.1 (e2 ▸ ht')⟩)
+            hord'.2
+            (fun t' ht' j hj hc => by
+              obtain ⟨hjL, hjt⟩ := (hmem j).mp hj
+              rcases List.mem_cons.mp (hcl' t' (List.mem_cons_of_mem _ ht') j hjL hc) with h1 | h1
+              · exact absurd h1 hjt
+              · exact h1)
+            t htr o
+    intro i hi o
+    exact hgone s.pool.reverse s s.pool hinv hnd (fun t ht => List.mem_reverse.mp ht) hord
+      (fun t _ j hj _ => List.mem_reverse.mpr hj) i (List.mem_reverse.mpr hi) o
+
+theorem PoolLive_of_empty (e : Env) (s : St) (hn : UNodup s.U) (hp : s.pool = []) (hc : sumU s.U = s.total) :
+    PoolLive e s := by
+  unfold PoolLive
+  rw [hp]
+  exact ⟨hn, Live_nil e s.U, by simp only [poolFees, List.map_nil, List.sum_nil]; omega⟩
+
+-- non-vacuity of `PoolLive`, `doTx_PoolLive`, `rollback_LiveSum`: parent 1 (5 -> 3 + fee 2) and child 2 (3 -> 2 + fee 1)
+-- are admitted one after the other; the strong invariant holds; rolling both back restores Σ U = total = 5
+example :
+    let e : Env := { txs := [(1, ⟨1, false, [⟨0, 0, "u0", 5, 0, false⟩], [⟨"u1", 3, 0⟩, ⟨"$", 2, 0⟩], [], []⟩),
+                             (2, ⟨2, false, [⟨1, 0, "u1", 3, 0, false⟩], [⟨"u2", 2, 0⟩, ⟨"$", 1, 0⟩], [], []⟩)] }
+    let s : St := { U := [((0, 0), ⟨"u0", 5, 0⟩)], total := 5 }
+    let s2 := (doTx e (doTx e s 0 1).1 0 2).1
+    PoolLive e s ∧ PoolLive e s2 ∧ s2.pool = [1, 2] ∧ sumU s2.U = 2 ∧
+      sumU (s2.pool.reverse.foldl (fun st i => undoTx e st (e.tx i)) s2).U = 5 := by
+  intro e s s2
+  have h0 : PoolLive e s := PoolLive_of_empty e s (by unfold UNodup; decide) rfl (by decide)
+  have h1 : PoolLive e (doTx e s 0 1).1 := doTx_PoolLive e s 0 1 h0
+    (fun _ => ⟨by decide, lookup_none_of_noid _ _ (by decide), by decide, by decide, by decide⟩)
+  have h2 : PoolLive e s2 := doTx_PoolLive e (doTx e s 0 1).1 0 2 h1
+    (fun _ => ⟨by decide, lookup_none_of_noid _ _ (by decide), by decide, by decide, by decide⟩)
+  exact ⟨h0, h2, by decide, by decide, by decide⟩
+
 end XV.C02
